@@ -53,6 +53,12 @@ type faultCase struct {
 	Cmd     string `json:"cmd"`
 	Next    string `json:"next"` // the follow-up command of the recovery clause
 	Out     string `json:"out"`
+	// idle loss: the first operation completes, the device then prints Unsolicited (a log line and
+	// a fresh prompt), the reader takes it, the connection is lost while idle, and NextOp
+	// (cmd | getprompt) follows: it must fail although a complete prompt sits in the queue
+	Idle        bool   `json:"idle,omitempty"`
+	Unsolicited string `json:"unsolicited,omitempty"`
+	NextOp      string `json:"next_op,omitempty"`
 }
 
 func genFault(prop string, r *sim.Rng, i int) *faultCase {
@@ -78,6 +84,15 @@ func genFault(prop string, r *sim.Rng, i int) *faultCase {
 		for k := 0; k < m; k++ {
 			c.Segs = append(c.Segs, 1+r.Intn(11))
 		}
+	}
+	if prop == "C06" && c.Fault != "writeerr" && (c.Op == "cmd" || c.Op == "getprompt" || c.Op == "netcmd") && r.Chance(1, 3) {
+		c.Idle = true
+		c.NextOp = r.Pick([]string{"getprompt", "getprompt", "cmd"})
+		pr := "router# "
+		if c.Op == "netcmd" {
+			pr = "host(l1)#"
+		}
+		c.Unsolicited = r.Pick([]string{"\r\n%LINK-3-UPDOWN: Interface Gi0/1, changed state to down\r\n" + pr, "\r\n" + pr, "", "*Mar  1 00:00:01: %SYS-5-CONFIG_I\r\n" + pr + "\r\n" + pr})
 	}
 	c.Cmd = fmt.Sprintf("show q%d", r.Intn(90)+10)
 	c.Next = fmt.Sprintf("display z%d", r.Intn(9))
@@ -185,6 +200,7 @@ func execFault(c *faultCase, fault bool, k int) *faultRun {
 	var calls []string
 	var specs []string
 	var getCached func() string
+	var getPrompt func() (string, error)
 	if network_ {
 		dev := &sim.PrivDevice{Levels: map[string]*sim.PrivLevel{
 			"exec":           {Name: "exec", Prompt: "host(l0)#"},
@@ -208,6 +224,7 @@ func execFault(c *faultCase, fault bool, k int) *faultRun {
 		}
 		closer = d.Close
 		getCached = func() string { return d.CurrentPriv }
+		getPrompt = d.GetPrompt
 		sendCmd = func(cmd string) (string, error) {
 			r, e := d.SendCommand(cmd)
 			if e != nil {
@@ -248,6 +265,7 @@ func execFault(c *faultCase, fault bool, k int) *faultRun {
 		}
 		closer = d.Close
 		getCached = func() string { return "" }
+		getPrompt = d.GetPrompt
 		flags := ""
 		sendCmd = func(cmd string) (string, error) {
 			r, e := d.SendCommand(cmd, oo...)
@@ -281,7 +299,7 @@ func execFault(c *faultCase, fault bool, k int) *faultRun {
 	_, fr.d0, _ = tr.Snapshot()
 	ws, _, _ := tr.Snapshot()
 	fr.w0 = len(ws)
-	if fault {
+	if fault && !c.Idle {
 		switch c.Fault {
 		case "stall":
 			tr.SetStall(fr.d0 + k)
@@ -312,9 +330,34 @@ func execFault(c *faultCase, fault bool, k int) *faultRun {
 		tr.Unstall()
 		time.Sleep(8 * time.Millisecond) // the device catches up
 	}
+	if fault && c.Idle {
+		if c.Unsolicited != "" {
+			tr.Inject(sim.Atoms([]byte(c.Unsolicited)))
+		}
+		for i := 0; i < 200; i++ { // the reader takes what the device printed
+			if _, _, pend := tr.Snapshot(); pend == 0 {
+				break
+			}
+			time.Sleep(200 * time.Microsecond)
+		}
+		_, dl, _ := tr.Snapshot()
+		if c.Fault == "eof" {
+			tr.SetLoss(dl, sim.LossEOF)
+		} else {
+			tr.SetLoss(dl, sim.LossErr)
+		}
+		time.Sleep(3 * time.Millisecond) // the reader meets the loss while nothing is in flight
+	}
 	tr.Mark('C')
 	t1 := time.Now()
-	res2, err2 := sendCmd(c.Next)
+	var res2 string
+	var err2 error
+	if c.Idle && c.NextOp == "getprompt" {
+		res2, err2 = getPrompt()
+		calls[len(calls)-1] = "gp"
+	} else {
+		res2, err2 = sendCmd(c.Next)
+	}
 	if err2 != nil && (errClass(err2) == "timeout" || (errClass(err2) == "privilege" && time.Since(t1) >= connTimeout*9/10)) {
 		tr.Mark('D')
 	}
@@ -358,6 +401,7 @@ func execFault(c *faultCase, fault bool, k int) *faultRun {
 }
 
 func runFaultCase(id string, c *faultCase) {
+	defer recoverCase(id, c)
 	cs := &Case{ID: id, Kind: fmt.Sprintf("%s/%s/%s", c.Op, c.Fault, c.Timeout), HypOK: true, Replay: c, Nontrivial: true}
 	dry := execFault(c, false, 0)
 	if dry.crashed != "" || dry.errs[0] != nil || dry.errs[1] != nil {
@@ -373,6 +417,10 @@ func runFaultCase(id string, c *faultCase) {
 		k = c.KFrac * nw / 1000
 	} else if k < 0 {
 		k = c.KFrac * (L + 1) / 1000
+	}
+	if c.Idle {
+		k = L
+		cs.Kind += "/idle-" + c.NextOp
 	}
 	c.K = k
 	fr := execFault(c, true, k)
@@ -435,6 +483,9 @@ func runFaultCase(id string, c *faultCase) {
 		case e0 != nil && fr.elapsed > 600*time.Millisecond:
 			cs.Oracle = fmt.Sprintf("%s after byte %d of %d: the operation waited %v (timeout is 1.5 s) instead of failing promptly", c.Fault, k, L, fr.elapsed)
 			cs.Sig = "C06:not-prompt"
+		case c.Idle && e0 != nil:
+			cs.Oracle = fmt.Sprintf("idle-loss case: the first operation (no fault yet) failed: %v", e0)
+			cs.Sig = "C06:idle-first-failed"
 		case e1 == nil && c.Fault != "writeerr" && k <= L:
 			// the loss happened during (or before the end of) the first exchange: every later operation fails
 			cs.Oracle = fmt.Sprintf("%s after byte %d of %d: a later operation succeeded (%q)", c.Fault, k, L, fr.results[1])
